@@ -2,6 +2,7 @@
 
 from __future__ import annotations
 
+import re
 from pathlib import Path
 
 import pathspec
@@ -24,8 +25,9 @@ def _read_ignore_file(path: Path) -> pathspec.PathSpec | None:
         return None
     try:
         return pathspec.PathSpec.from_lines("gitignore", lines)
-    except ValueError:
-        # A line that is no valid pattern (a lone "!", a trailing backslash): git skips such
+    except (ValueError, re.error):
+        # A line that is no valid pattern (a lone "!", a trailing backslash, a reversed
+        # character range that pathspec turns into an invalid regex): git skips such
         # lines and applies the others, so do the same instead of failing the whole run.
         valid = [line for line in lines if _is_valid_pattern(line)]
         if not valid:
@@ -37,7 +39,7 @@ def _is_valid_pattern(line: str) -> bool:
     """Whether pathspec can compile this single gitignore line."""
     try:
         pathspec.PathSpec.from_lines("gitignore", [line])
-    except ValueError:
+    except (ValueError, re.error):
         return False
     return True
 
